@@ -793,6 +793,46 @@ fn extract_next_batch<'a>(
     Some(blocks.drain(..block_count))
 }
 
+/// Verification hooks: wrappers around the private block / batching functions.
+#[cfg(feature = "verif")]
+pub mod verif {
+    use super::*;
+
+    pub use super::{
+        config::{MAX_BATCH_SIZE, MAX_MESSAGE_SIZE},
+        schema::bitswap::{Block as SchemaBlock, BlockPresence as SchemaBlockPresence, Message as SchemaMessage},
+    };
+
+    /// What the inbound path does with one payload block.
+    pub fn block_to_response(peer: &PeerId, prefix: Vec<u8>, data: Vec<u8>) -> Option<ResponseType> {
+        super::block_to_response(peer, schema::bitswap::Block { prefix, data })
+    }
+
+    /// Encoded blocks message and the number of blocks in it.
+    pub fn blocks_message(blocks: Vec<(Cid, Vec<u8>)>) -> Option<(Bytes, usize)> {
+        super::blocks_message(blocks)
+    }
+
+    /// Encoded presences message and the number of presences in it.
+    pub fn presences_message(presences: Vec<(Cid, BlockPresenceType)>) -> Option<(Bytes, usize)> {
+        super::presences_message(presences)
+    }
+
+    /// Next batch as `send_response` would extract it.
+    pub fn extract_next_batch(
+        blocks: &mut VecDeque<(Cid, Vec<u8>)>,
+        max_batch_size: usize,
+    ) -> Option<Vec<(Cid, Vec<u8>)>> {
+        super::extract_next_batch(blocks, max_batch_size).map(|batch| batch.collect())
+    }
+
+    /// CID prefix parser: `(version, codec, multihash type, multihash length)`.
+    pub fn prefix_from_bytes(bytes: &[u8]) -> Option<(u64, u64, u64, u8)> {
+        Prefix::from_bytes(bytes)
+            .map(|p| (p.version.into(), p.codec, p.multihash_type, p.multihash_len))
+    }
+}
+
 #[cfg(test)]
 mod tests {
     use cid::multihash::Multihash;
